@@ -181,6 +181,46 @@ def work_generated(ctx, seed):
                       % ([o for o, _ in chain], problems[0]), {'kind': 'chain', 'input': b, 'chain': [[o, list(a)] for o, a in chain]})
 
 
+OPS1 = [('remove_free_primitives', ()), ('uncontract_general', ()), ('uncontract_spdf', (0, )), ('uncontract_spdf', (1, )), ('uncontract_segmented', ()),
+        ('make_general', ()), ('optimize_general', ()), ('prune_basis', ()), ('sort_basis', ())]
+
+
+def work_patho_each(ctx, k):
+    """every labelled pathological (valid) shape through every single operation (+ prune_basis), then validated"""
+    import copy
+    import random
+    from basis_set_exchange import manip, sort, validator, compose
+    pool = [f for f in gen.PATHOLOGICAL if f not in (gen.patho_dup_function, gen.patho_contraction_on_free)]
+    f = pool[(k // len(OPS1)) % len(pool)]
+    op, args = OPS1[k % len(OPS1)]
+    b = f(random.Random(ctx.seed * 41 + k))
+    fn = getattr(sort, op) if op == 'sort_basis' else getattr(manip, op)
+    r = impl.call(fn, copy.deepcopy(b), *args)
+    if r[0] == 'ok':
+        r = impl.call(manip.prune_basis, r[1])
+    if r[0] != 'ok':
+        ctx.dist['patho-raises:%s:%s:%s' % (f.__name__, op, r[1])] += 1
+        return
+    cur = r[1]
+    ctx.case((f.__name__, op, args), True, 'patho-each:' + op)
+    if op == 'remove_free_primitives':
+        for z in [z for z, el in cur['elements'].items() if el.get('electron_shells') == [] and 'ecp_potentials' not in el]:
+            del cur['elements'][z]
+        for el in cur['elements'].values():
+            if el.get('electron_shells') == []:
+                del el['electron_shells']
+        if not cur['elements']:
+            return
+    cur['function_types'] = compose._whole_basis_types(cur)
+    problems = oracle.wellformed_problems(cur)
+    v = impl.call(validator.validate_data, 'complete', cur)
+    if v[0] != 'ok' and not problems:
+        problems.append('validator rejects')
+    if problems:
+        ctx.violation('manip.' + op, fingerprint({op}, (0, 0), problems, b), '%s + prune_basis on the valid shape %s is not well-formed: %s'
+                      % (op, f.__name__, problems[0]), {'kind': 'chain', 'input': b, 'chain': [[op, list(args)]]})
+
+
 def run(ctx):
     ctx.rule = ('get_basis on store basis/versions with every subset of the six contraction flags (64) and sampled (thorough: five) '
                 'augmentation settings, each output checked by validate_data("complete") and by an independent restatement of the '
@@ -197,6 +237,7 @@ def run(ctx):
     ctx.rng.shuffle(items)
     store.parallel(ctx, work_store, items)
     store.parallel(ctx, work_generated, [ctx.seed * 100043 + i for i in range(ctx.budget(300, 20000))])
+    store.parallel(ctx, work_patho_each, list(range(len(gen.PATHOLOGICAL) * len(OPS1) * ctx.budget(1, 4))))
 
 
 def replay(ctx, rec):
